@@ -321,6 +321,15 @@ class Gen(object):
             # a large (but legal) payload, once per run
             self.big_done = True
             m["body"] = self.uniq("B") + "f" * self.rng.choice([100000, 1200000, 2500000])
+            if self.rng.random() < 0.5:
+                # ... or one whose *frame* ends exactly at (or a few bytes below) a round size:
+                # the answer that echoes it is a little longer than the command
+                m["id"] = self.uniq("m")
+                limit = self.rng.choice([65536, 1048576, 1048576])
+                tag = self.uniq("B")
+                over = len(json.dumps(dict(m, body=tag)).encode("utf-8"))
+                m["body"] = tag + "f" * max(0, limit - over - self.rng.choice([0, 0, 1, 17, 60, 90]))
+                return [self._send(c, m)]
         if self.rng.random() < 0.7:
             m["id"] = self.uniq("m")
         if self.rng.random() < 0.08:
